@@ -99,10 +99,11 @@ def decide(ck, arts, k):
         raise vp.Infra("UserLalr did not complete:\n" + r.out[-3000:])
     ck.coverage["traces_validated_against_impl"] += len(arts)
     perr = [d for d in r.printed("PARSEERROR") if not arts[d["id"]]["perr"].startswith("panic")]
-    npanic = sum(1 for a in arts.values() if a["perr"].startswith("panic"))
-    if npanic:
-        # grammars with non-generating non-terminals make the table builder of the dependency panic: recorded under C14
-        ck.coverage["grammars_skipped_table_builder_panics"] = npanic
+    for d in r.printed("PARSEERROR"):
+        a = arts[d["id"]]
+        if a["perr"].startswith("panic"):
+            ck.violation("%s %r: emerge panics: %s" % (a["id"], a["text"].replace("\n", " "), a["perr"][:120]),
+                         {"property": "C06", "kind": "panic", "id": a["id"], "text": a["text"]})
     if perr:
         a = arts[perr[0]["id"]]
         raise vp.Infra("%d grammar texts were rejected by spec.Parse, e.g. %r: %s" % (len(perr), a["text"], a["perr"][:200]))
